@@ -10,7 +10,11 @@ from vlib import common as C  # noqa: E402
 from vlib import x_kernels  # noqa: E402
 
 lib = C.build_lib('fiber')
-text, problems, defs = x_kernels.generate(C.REPO, os.path.join(lib, 'include'), C.WORK)
+for f in os.listdir(lib):
+    if f.startswith('kernels-'):
+        os.remove(os.path.join(lib, f))
+with C.Lock('kernels'):
+    text, problems, defs = x_kernels.generate(C.REPO, os.path.join(lib, 'include'), C.WORK)
 if problems:
     print('\n'.join(problems))
     sys.exit(1)
